@@ -37,7 +37,9 @@ type C19Case struct {
 
 // (a name is a sequence of bytes: hidden files, blanks, several dots, non-ASCII letters in UTF-8 and in a legacy 8-bit encoding)
 var c19Files = []string{"a.toml", "device.toml", "notes.txt", "a.toml.bak", "a.toml~", "mytoml", "x.tom", "toml", "atoml", "README",
-	".pad.toml", "._pad.toml", ".toml", "my pad.toml", "x.y.toml", "пульт.toml", "Ger\xe4t.toml", ".toml.swp", "a.toml.toml"}
+	".pad.toml", "._pad.toml", ".toml", "my pad.toml", "x.y.toml", "пульт.toml", "Ger\xe4t.toml", ".toml.swp", "a.toml.toml",
+	// configurations are loaded from sub-directories too (the loader walks the whole tree): a file there is a file in the directory
+	"mine/nested.toml", "mine/deeper/still.toml", "mine/notes.txt"}
 
 func c19IsTOML(name string) bool { return strings.HasSuffix(name, ".toml") }
 
@@ -79,6 +81,7 @@ func checkC19(c C19Case) (nontrivial bool, v *Violation) {
 			return false, violation("C19", "harness", "", "mkdir: %v", err)
 		}
 		for _, f := range append([]string{"warmup.toml"}, c19Files...) {
+			_ = os.MkdirAll(filepath.Dir(filepath.Join(root, d, f)), 0o755)
 			if err := os.WriteFile(filepath.Join(root, d, f), []byte("# 000000\n# padding padding padding\n"), 0o644); err != nil {
 				return false, violation("C19", "harness", "", "create: %v", err)
 			}
@@ -100,10 +103,9 @@ func runC19(root string, c C19Case) (nontrivial bool, v *Violation) {
 	if pv := guard("C19", "panic", func() *Violation { ch = config.DetectDeviceConfigChanges(ctx); return nil }); pv != nil {
 		return false, pv
 	}
-	// the watches are added asynchronously after the call returns; give them a moment so that the
-	// warm-up below normally needs exactly one write per directory (every extra warm-up write is slack
-	// in the upper bound)
-	time.Sleep(25 * time.Millisecond)
+	// once the call has returned the directories are being watched: the very first modification counts like any other
+	// (the manager loads the configurations right after this call; a change made after that load and before the watches
+	// existed would be neither loaded nor noticed)
 	total, tomlWrites, seq := 0, 0, 0
 	closed := false
 	// recv waits up to d for one notification.
@@ -151,24 +153,20 @@ func runC19(root string, c C19Case) (nontrivial bool, v *Violation) {
 		}
 		return nil
 	}
-	// warm-up: one directory after the other, until a write is noticed (proves that watch is active)
+	// first a single modification in every directory, starting the moment the call has returned
 	for d := range c12Dirs {
-		ready := false
-		for try := 0; try < 200 && !ready; try++ {
-			if wv := write(d, "warmup.toml", ""); wv != nil {
-				return false, wv
-			}
-			ready = recv(50 * time.Millisecond)
-			if closed {
-				return true, violation("C19", "stream-ended-early", "", "the notification stream ended although the context is still live")
-			}
+		if wv := write(d, "warmup.toml", ""); wv != nil {
+			return false, wv
+		}
+		ready := recv(c19Live)
+		if closed {
+			return true, violation("C19", "stream-ended-early", "", "the notification stream ended although the context is still live")
 		}
 		if !ready {
-			return true, violation("C19", "missed-notification", "warmup", "200 writes to %s/warmup.toml over 10 s produced no notification", c12Dirs[d])
+			return true, violation("C19", "missed-notification", "first-write", "the first in-place write to %s/warmup.toml after DetectDeviceConfigChanges had returned produced no notification within %v", c12Dirs[d], c19Live)
 		}
 		drain(60 * time.Millisecond)
 	}
-	classify(fmt.Sprintf("warm-up writes: %d", tomlWrites))
 	if bv := bound("after warm-up"); bv != nil {
 		return true, bv
 	}
